@@ -75,6 +75,13 @@ pub fn plausible50(mb: u64) -> bool {
         && d.roll.abs() <= 50.0 && d.gs <= 600 && d.tas <= 500 && (d.gs as i64 - d.tas as i64).abs() < 200
 }
 
+/// The 5,0 reading of this MB field violates a plausibility limit the property states (by a margin that
+/// no rounding convention can close): it does not "satisfy the rules" of BDS 5,0.
+pub fn clearly_implausible50(mb: u64) -> bool {
+    let d = decode50(mb);
+    d.roll.abs() >= 51.0 || d.gs > 600 || d.tas > 500 || (d.gs as i64 - d.tas as i64).abs() >= 200
+}
+
 pub fn all_status60(mb: u64) -> bool {
     let f = f60_of(mb);
     f.s_hdg == 1 && f.s_ias == 1 && f.s_mach == 1 && f.s_baro == 1 && f.s_ivv == 1
